@@ -86,6 +86,9 @@ pub struct Rec {
     pub origin: Origin,
     pub val: u32,
     pub owner: u8,
+    /// element of a type without drop glue (`Plain`): its destruction is not observable, the
+    /// harness marks it destroyed where the model says it is (`virtual_drop`)
+    pub nodrop: bool,
 }
 
 // ---- callback classes for fault plans ----
@@ -239,7 +242,7 @@ impl Ledger {
 
     fn on_new(&mut self, val: u32, owner: u8, origin: Origin) -> u32 {
         let id = self.recs.len() as u32;
-        self.recs.push(Rec { st: St::Live, origin, val, owner });
+        self.recs.push(Rec { st: St::Live, origin, val, owner, nodrop: false });
         self.ev(EV_NEW, id as u64);
         id
     }
@@ -417,6 +420,25 @@ pub fn owner_of(id: u32) -> u8 {
 }
 pub fn state_of(id: u32) -> Option<St> {
     with(|l| l.recs.get(id as usize).map(|r| r.st))
+}
+/// For an element without drop glue: the model says it is destroyed now. Returns whether the
+/// element counts as destroyed afterwards (for every other element: whether it was dropped).
+pub fn gone(id: u32) -> bool {
+    with(|l| match l.recs.get_mut(id as usize) {
+        Some(r) => {
+            if r.nodrop && r.st == St::Live {
+                r.st = St::Dropped;
+            }
+            r.st == St::Dropped
+        }
+        None => false,
+    })
+}
+pub fn is_nodrop(id: u32) -> bool {
+    with(|l| l.recs.get(id as usize).map(|r| r.nodrop).unwrap_or(false))
+}
+pub fn val_of(id: u32) -> Option<u32> {
+    with(|l| l.recs.get(id as usize).map(|r| r.val))
 }
 pub fn origin_of(id: u32) -> Option<Origin> {
     with(|l| l.recs.get(id as usize).map(|r| r.origin))
@@ -623,5 +645,93 @@ impl Hasher for StubHasher {
             self.0 ^= b as u64;
             self.0 = self.0.wrapping_mul(0x0000_0100_0000_01B3);
         }
+    }
+}
+
+// ------------------------------------------------------------------------------------
+/// A third element shape: identity-tracked like `Tok`, but **without drop glue** (no `Drop`
+/// impl, no heap). Code paths guarded by `mem::needs_drop::<T>()` take their other branch for it.
+/// Its destruction is unobservable, so for runs with this element the oracles check order,
+/// length reports, aliasing and read-after-yield, not drop accounting.
+#[repr(C)]
+pub struct Plain {
+    pub id: u32,
+    pub val: u32,
+}
+impl Plain {
+    pub fn new(val: u32, owner: u8) -> Plain {
+        let id = with(|l| {
+            let id = l.on_new(val, owner, Origin::Workload);
+            l.recs[id as usize].nodrop = true;
+            id
+        });
+        Plain { id, val }
+    }
+}
+impl Default for Plain {
+    fn default() -> Plain {
+        let (inject, id) = with(|l| {
+            l.total_defaults += 1;
+            if l.abandon() || l.want_inject(Cb::Default) {
+                return (true, 0);
+            }
+            let id = l.on_new(DEFAULT_VAL, OWN_FRESH, Origin::Default);
+            l.recs[id as usize].nodrop = true;
+            l.ev(EV_DEFAULT, id as u64);
+            l.fresh_in_op.push(id);
+            (false, id)
+        });
+        if inject {
+            std::panic::panic_any(Injected);
+        }
+        Plain { id, val: DEFAULT_VAL }
+    }
+}
+impl fmt::Debug for Plain {
+    fn fmt(&self, f: &mut fmt::Formatter<'_>) -> fmt::Result {
+        if with(|l| l.on_touch(EV_FMT, "fmt", self.id, self.val)) {
+            std::panic::panic_any(Injected);
+        }
+        write!(f, "p{}", self.val)
+    }
+}
+impl fmt::Display for Plain {
+    fn fmt(&self, f: &mut fmt::Formatter<'_>) -> fmt::Result {
+        if with(|l| l.on_touch(EV_FMT, "display", self.id, self.val)) {
+            std::panic::panic_any(Injected);
+        }
+        write!(f, "p{}", self.val)
+    }
+}
+impl PartialEq for Plain {
+    fn eq(&self, other: &Plain) -> bool {
+        let a = with(|l| l.on_touch(EV_EQ, "eq", self.id, self.val));
+        let b = with(|l| l.on_touch(EV_EQ, "eq", other.id, other.val));
+        if a || b {
+            std::panic::panic_any(Injected);
+        }
+        self.val == other.val
+    }
+}
+impl Hash for Plain {
+    fn hash<H: Hasher>(&self, state: &mut H) {
+        if with(|l| l.on_touch(EV_HASH, "hash", self.id, self.val)) {
+            std::panic::panic_any(Injected);
+        }
+        state.write_u32(self.val);
+    }
+}
+impl Clone for Plain {
+    fn clone(&self) -> Plain {
+        if with(|l| l.on_touch(EV_CLONE, "clone", self.id, self.val)) {
+            std::panic::panic_any(Injected);
+        }
+        let id = with(|l| {
+            let id = l.on_new(self.val, OWN_FRESH, Origin::Clone);
+            l.recs[id as usize].nodrop = true;
+            l.fresh_in_op.push(id);
+            id
+        });
+        Plain { id, val: self.val }
     }
 }
